@@ -482,7 +482,7 @@ class Executor:
             run.unavailable.clear()
             run.unfresh.clear()
             wants_defer = False
-            self.workflow.update_file_hashes(new_inp_hashes, cause=HashUpdateCause.FAILED)
+            self._record_changed_inputs(new_inp_hashes)
         elif wants_defer:
             # Rescheduling in the `mark_completed()`` method needs the new hash to be None,
             # so the step is not marked as succeeded.
@@ -578,7 +578,7 @@ class Executor:
         unexpected_input_changes = len(new_inp_hashes) > 0
         if unexpected_input_changes:
             async with self.db:
-                self.workflow.update_file_hashes(new_inp_hashes, cause=HashUpdateCause.FAILED)
+                self._record_changed_inputs(new_inp_hashes)
         await self._finalize_failed_run(run)
         if unexpected_input_changes:
             await self._drain_for_unexpected_input_changes()
@@ -889,6 +889,27 @@ class Executor:
     #
     # Command execution helper
     #
+
+    def _record_changed_inputs(self, inp_hashes: Mapping[str, FileHash]) -> None:
+        """Record what inputs that changed under a step look like now, as after a failed command.
+
+        Only paths whose file still holds a hash that this report can correct are recorded:
+        while the command ran or the hashes were computed, a new declaration may have
+        given a path another role (volatile, or static and not confirmed yet),
+        for which nothing is stored or a hash job is under way, and which has no such transition.
+        """
+        still_recorded = {}
+        for path, file_hash in inp_hashes.items():
+            file = self.workflow.find(File, path)
+            if file is not None and file.get_state() in (
+                FileState.MISSING,
+                FileState.CONFIRMED,
+                FileState.PLANNED,
+                FileState.OUTDATED,
+                FileState.BUILT,
+            ):
+                still_recorded[path] = file_hash
+        self.workflow.update_file_hashes(still_recorded, cause=HashUpdateCause.FAILED)
 
     def _record_written_outputs(self, out_hashes: Mapping[str, FileHash]) -> None:
         """Record what a command whose verdict is dropped has written, as after a failed command.
